@@ -83,6 +83,16 @@ func TestRecreateDuringSweep(t *testing.T) {
 		NonTrivial: func(c map[string]int64) bool { return c["internal_probes"] > 0 && c["members_required"] > 0 }}, ck)
 }
 
+func TestCreateRacesWithDestroyedGroup(t *testing.T) {
+	sub := vf.Cur().Sub("create-races-with-destroyed-group", fmt.Sprintf(rule, "targeted, with yield hooks: ingestion of a firing alert is held between finding no group and publishing the one it built, while a resolved, old alert of the same group creates the group, which flushes, empties and is marked destroyed before the sweep; the firing alert must end up in a live group, be visible in the API and be notified"), 10)
+	ck := map[string]sysrun.Checker{"group-map": oracle.GroupMapInvariants, "obligations": oracle.Obligations}
+	for k, v := range checkers {
+		ck[k] = v
+	}
+	sysrun.Run(t, "C06", sub, sysrun.Family{Name: "cdg", Quick: 60, Thorough: 3000, Gen: scen.CreateRacesWithDestroyedGroup,
+		NonTrivial: func(c map[string]int64) bool { return c["members_required"] > 0 }}, ck)
+}
+
 func TestYieldedLifecycle(t *testing.T) {
 	sub := vf.Cur().Sub("yielded-lifecycle", fmt.Sprintf(rule, "generated lifecycle scenarios with random virtual-time sleeps at all dispatcher yield points (worker receive, after group load, before group store, sweep before delete, flush before delete)"), 20)
 	ck := map[string]sysrun.Checker{"group-map": oracle.GroupMapInvariants, "obligations": oracle.Obligations}
